@@ -411,7 +411,7 @@ impl Agent {
                 });
             })
             .unwrap();
-        let (handle, shared, policy) = rx.recv_timeout(Duration::from_secs(10)).unwrap_or_else(|_| vcommon::result::machinery("subject runtime did not start"));
+        let (handle, shared, policy) = rx.recv_timeout(Duration::from_secs(120)).unwrap_or_else(|_| vcommon::result::machinery("subject runtime did not start"));
         *sh.agent.lock().unwrap() = Some((handle.clone(), shared.get_key_keeper_shared_state()));
         Agent { handle, shared, policy, join: Some(join) }
     }
@@ -426,7 +426,7 @@ impl Agent {
             let ids = [kk.get_wireserver_rule_id().await.unwrap_or_default(), kk.get_imds_rule_id().await.unwrap_or_default(), kk.get_hostga_rule_id().await.unwrap_or_default()];
             let _ = tx.send((state, key_guid, key_value, rs, ids));
         });
-        let (state, key_guid, key_value, rs, rule_ids): (String, Option<String>, Option<String>, [Option<ComputedAuthorizationItem>; 3], [String; 3]) = match rx.recv_timeout(Duration::from_secs(10)) {
+        let (state, key_guid, key_value, rs, rule_ids): (String, Option<String>, Option<String>, [Option<ComputedAuthorizationItem>; 3], [String; 3]) = match rx.recv_timeout(Duration::from_secs(if self.join.as_ref().map_or(false, |j| j.is_finished()) { 2 } else { 90 })) {
             Ok(v) => v,
             // the subject's thread has ended (its poll loop panicked): that is the subject's doing, not the harness's; the
             // observation says so and the history reports that the key keeper stopped polling
@@ -463,7 +463,7 @@ impl Agent {
         if let Some(j) = self.join.take() {
             let t = Instant::now();
             while !j.is_finished() {
-                if t.elapsed() > Duration::from_secs(10) {
+                if t.elapsed() > Duration::from_secs(90) {
                     vcommon::result::machinery("the subject thread did not stop after cancellation");
                 }
                 std::thread::sleep(Duration::from_micros(200));
@@ -475,7 +475,7 @@ impl Agent {
         let host = &hosts[sh.active.load(std::sync::atomic::Ordering::SeqCst)];
         let t = Instant::now();
         while host.open_connections() > 0 {
-            if t.elapsed() > Duration::from_secs(10) {
+            if t.elapsed() > Duration::from_secs(90) {
                 vcommon::result::machinery("mock host connections of the stopped agent did not close");
             }
             sh.cv.notify_all();
@@ -570,7 +570,8 @@ fn run_history(sh: &Arc<Shared>, host: &[MockHost], hist: &[Ev]) -> HistOut {
     sh.log.lock().unwrap().clear();
     sh.sign_problems.lock().unwrap().clear();
     let agent = Agent::start(sh, bpf, policy_fd);
-    if !wait_parked(sh) {
+    // (a heavily loaded machine may starve a freshly started subject for a long time: up to two minutes here)
+    if !(wait_parked(sh) || wait_parked(sh) || wait_parked(sh) || wait_parked(sh)) {
         vcommon::result::machinery("the key keeper never sent its first status request");
     }
     let mut problems: Vec<(String, String)> = Vec::new();
